@@ -2,6 +2,7 @@ package main
 
 import (
 	"crypto/ecdsa"
+	"crypto/rand"
 	"crypto/sha256"
 	"encoding/hex"
 	"encoding/json"
@@ -129,16 +130,28 @@ func mustJSON(v interface{}) []byte {
 
 // SignInput signs the output reference the way the web wallet does.
 func (w *Wallet) SignInput(idx uint16, txid string) *JInput {
-	info := ledger.NewInputInfo(idx, txid)
-	msg, err := json.Marshal(info)
+	// signed with crypto/ecdsa directly, as a wallet that is not this repository would: the message
+	// is the JSON of (output_index, transaction_id); half of the signatures are given in their
+	// upper-S form (s and N-s are both valid ECDSA signatures)
+	msg, err := json.Marshal(struct {
+		OutputIndex   uint16 `json:"output_index"`
+		TransactionId string `json:"transaction_id"`
+	}{idx, txid})
 	if err != nil {
 		panic(err)
 	}
-	sig, err := encryption.NewSignature(msg, w.Priv)
+	h := sha256.Sum256(msg)
+	r, sgn, err := ecdsa.Sign(rand.Reader, w.Priv.PrivateKey, h[:])
 	if err != nil {
 		panic(err)
 	}
-	return &JInput{idx, txid, w.PubHex, sig.String()}
+	n := ethcrypto.S256().Params().N
+	half := new(big.Int).Rsh(n, 1)
+	wantUpper := h[0]&1 == 1
+	if (sgn.Cmp(half) > 0) != wantUpper {
+		sgn = new(big.Int).Sub(n, sgn)
+	}
+	return &JInput{idx, txid, w.PubHex, fmt.Sprintf("%064x%064x", r, sgn)}
 }
 
 // Decode a mirror transaction through the real decoder.
